@@ -1,6 +1,8 @@
 import FinamModel.Integration
 import FinamModel.Translated.AvgOverTime__interpolate
 import FinamModel.Translated.SumOverTime__interpolate
+import FinamModel.Translated.TimeIntegrationAdapter__get_data_avg
+import FinamModel.Translated.TimeIntegrationAdapter__get_data_sum
 import FinamModel.Props.TrTime
 /-
   Equivalence of the translated `_interpolate` bodies of `AvgOverTime` / `SumOverTime` (regenerated from
@@ -195,5 +197,47 @@ theorem tr_AvgOverTime__interpolate (d : List (Int × Rat)) (prev : Int) (step :
         have h1 : ¬ ((0 : Rat) < ((t : Rat) - (prev : Rat)) / 1000000) := by grind
         have h3 : ¬ (prev < t) := by omega
         simp [h1, h3]
+
+/-- **`TimeIntegrationAdapter._get_data` of `SumOverTime`** = the pull step of `TI.stepImpl`: range check, integral
+    since the previous request, eviction by the *previous* request time, `_prev_time` advanced to the request -/
+theorem tr_TimeIntegrationAdapter__get_data_sum (d : List (Int × Rat)) (prev : Int) (step : Option Rat) (pt : Bool)
+    (init t : Int) (hs : Sorted (toE d)) :
+    Tr.TimeIntegrationAdapter__get_data_sum d prev step pt init t =
+      (TI.getData ⟨step, .sum pt init⟩ (toE d) prev t).map (fun v => (v, t, ofE (TA.clear (toE d) prev))) := by
+  unfold Tr.TimeIntegrationAdapter__get_data_sum
+  match d with
+  | [] => simp [TI.getData, TA.checkRange, Except.map]
+  | p :: r =>
+    have hl : ¬ (Py.len r + 1 = 0) := by have := len_nonneg r; omega
+    have := tr_SumOverTime__interpolate (p :: r) prev step pt init t hs (by simp)
+    simp only [toE_cons] at this
+    simp only [len_cons, hl, if_false, idx_zero_cons, ok_bind, idx_last, tr_check_time, this,
+      tr_TimeCachingAdapter__clear_cached_data, TI.getData, TI.interp, toE_cons, TA.checkRange]
+    by_cases h1 : t > (TA.lastE ⟨p.1, p.2⟩ (toE r)).t
+    · simp [h1, Except.map]
+    · by_cases h2 : t < p.1
+      · simp [h1, h2, Except.map]
+      · simp only [h1, h2, if_false, ok_bind]
+        cases TI.sumInterp step pt init (⟨p.1, p.2⟩ :: toE r) prev t <;> simp [Except.map]
+
+theorem tr_TimeIntegrationAdapter__get_data_avg (d : List (Int × Rat)) (prev : Int) (step : Option Rat)
+    (t : Int) (hs : Sorted (toE d)) :
+    Tr.TimeIntegrationAdapter__get_data_avg d prev step t =
+      (TI.getData ⟨step, .avg⟩ (toE d) prev t).map (fun v => (v, t, ofE (TA.clear (toE d) prev))) := by
+  unfold Tr.TimeIntegrationAdapter__get_data_avg
+  match d with
+  | [] => simp [TI.getData, TA.checkRange, Except.map]
+  | p :: r =>
+    have hl : ¬ (Py.len r + 1 = 0) := by have := len_nonneg r; omega
+    have := tr_AvgOverTime__interpolate (p :: r) prev step t hs (by simp)
+    simp only [toE_cons] at this
+    simp only [len_cons, hl, if_false, idx_zero_cons, ok_bind, idx_last, tr_check_time, this,
+      tr_TimeCachingAdapter__clear_cached_data, TI.getData, TI.interp, toE_cons, TA.checkRange]
+    by_cases h1 : t > (TA.lastE ⟨p.1, p.2⟩ (toE r)).t
+    · simp [h1, Except.map]
+    · by_cases h2 : t < p.1
+      · simp [h1, h2, Except.map]
+      · simp only [h1, h2, if_false, ok_bind]
+        cases TI.avgInterp step (⟨p.1, p.2⟩ :: toE r) prev t <;> simp [Except.map]
 
 end Finam.Props.C12
